@@ -502,3 +502,85 @@ def rule_semicolon(m, rid):
         r.fail("_next|apply_map", "_next builds a Line for a ';' part without undoing the replace map: placeholders of literals "
                "would reach the parser", m.loc(nx))
     return r
+
+
+# ------------------------------------------------------------------------------------------------
+# splitquote: quoted segments are typed String and never case-folded (C02.R1, C04, C05)
+# ------------------------------------------------------------------------------------------------
+def rule_splitquote(m, rid):
+    r = RuleResult(rid, "splitquote marks every quoted region as String (so '!' and ';' inside it are inert) and case-folds only unquoted text")
+    r.floor = 5
+    f = m.need_func("fparser.common.splitline", "splitquote")
+    d = defuse.deps(f.node)
+    P = A.parents(f.node)
+    segs = []
+    for n in A.body_nodes(f.node):
+        if isinstance(n, ast.Call) and isinstance(n.func, ast.Attribute) and n.func.attr == "append" and A.text(n.func.value) == "segments" and n.args:
+            segs.append((n.args[0], n))
+        if isinstance(n, ast.Return) and isinstance(n.value, ast.Tuple) and n.value.elts and isinstance(n.value.elts[0], ast.List):
+            for e in n.value.elts[0].elts:
+                segs.append((e, n))
+    if len(segs) < 5:
+        r.error("splitquote: only %d segment constructions found (anchor changed)" % len(segs))
+    # positions of opening / closing quotes are the results of _next_quote without / with a quote_char
+    start_vars, end_vars = set(), set()
+    for n in A.body_nodes(f.node):
+        if isinstance(n, ast.Assign) and isinstance(n.value, ast.Call) and A.text(n.value.func) == "_next_quote" and isinstance(n.targets[0], ast.Name):
+            if any(k.arg == "quote_char" for k in n.value.keywords) or len(n.value.args) >= 2:
+                end_vars.add(n.targets[0].id)
+            else:
+                start_vars.add(n.targets[0].id)
+    if not start_vars or not end_vars:
+        r.error("splitquote: opening/closing quote searches (_next_quote) not found")
+        return r
+
+    def in_stopchar_branch(node):
+        x = node
+        while x in P and P[x] is not f.node:
+            p = P[x]
+            if isinstance(p, ast.While):
+                return False
+            if isinstance(p, ast.If) and A.text(p.test) == "stopchar":
+                return True
+            x = p
+        return False
+    for x, site in segs:
+        r.instances += 1
+        is_string = isinstance(x, ast.Call) and A.text(x.func) == "String"
+        inner = x.args[0] if is_string and x.args else x
+        lowered = False
+        while isinstance(inner, ast.Call) and (A.text(inner.func) == "_lower" or (isinstance(inner.func, ast.Attribute) and inner.func.attr == "lower")):
+            lowered = True
+            inner = inner.args[0] if inner.args else inner.func.value
+        quoted = None
+        if isinstance(inner, ast.Subscript) and isinstance(inner.slice, ast.Slice):
+            lo, up = inner.slice.lower, inner.slice.upper
+            lo_names = A.names_in(lo) if lo is not None else set()
+            up_dep = set()
+            if up is not None:
+                for nm in A.names_in(up):
+                    # the bound itself or a name computed directly from a closing-quote position (pos = end + 1); not the
+                    # transitive closure, which reaches it through the loop-carried position from every bound
+                    up_dep.add(nm)
+                    if nm not in start_vars and set(d.get(nm, ())) & end_vars:
+                        up_dep |= end_vars
+            quoted = bool(lo_names & start_vars) or bool(up_dep & end_vars) or in_stopchar_branch(site)
+        elif isinstance(inner, ast.Name) and inner.id == "line":
+            quoted = in_stopchar_branch(site)
+        if quoted is None:
+            r.undet("splitquote: segment `%s` not classified" % A.text(x))
+            continue
+        if quoted:
+            ok = is_string and not lowered
+            r.ob(ok, "quoted segment `%s`" % A.text(x))
+            if not ok:
+                r.fail("splitquote|quoted|%s" % A.text(x)[:40], "splitquote builds the quoted region `%s` %s: %s" % (
+                    A.text(x), "without marking it String" if not is_string else "case-folded",
+                    "a '!' or ';' inside the literal is then treated as a comment/statement separator" if not is_string
+                    else "character literals lose their spelling"), m.loc(f, site))
+        else:
+            ok = not is_string
+            r.ob(ok, "unquoted segment `%s`" % A.text(x))
+            if not ok:
+                r.fail("splitquote|unquoted|%s" % A.text(x)[:40], "splitquote marks the unquoted text `%s` as String" % A.text(x), m.loc(f, site))
+    return r
